@@ -413,4 +413,10 @@ def extra(tier, base_seed):
             herr.append("model conformance: simulated and real maps differ for %s (the simulator misrepresents the code)" % _cfg_str(cfg))
         os.remove(outp)
     info["real_wall_s"] = round(info["real_wall_s"], 2)
+    # the Pool/Barrier model itself against real multiprocessing on toy workloads
+    from simkit import selftest
+    nsc, bad = selftest.compare(seeds=4 if tier == "quick" else 16)
+    info["pool_model_selftest"] = {"scenarios": nsc, "agree": nsc - len(bad)}
+    for b in bad:
+        herr.append("simulated Pool/Barrier model disagrees with real multiprocessing: " + b)
     return viol, herr, info
